@@ -4,6 +4,7 @@ package worlds
 
 import (
 	"context"
+	"unsafe"
 	"crypto/ed25519"
 	"crypto/rand"
 	"crypto/tls"
@@ -166,15 +167,20 @@ func NewPoisonPool(s *simkit.Sim) *PoisonPool {
 //go:norace
 func (p *PoisonPool) Get(key any, newf func() any) any {
 	p.s.Lock()
-	defer p.s.Unlock()
 	p.Gets++
 	st := p.stacks[key]
 	if n := len(st); n > 0 {
 		b := st[n-1]
 		p.stacks[key] = st[:n-1]
 		p.Reuses++
+		p.s.Unlock()
+		// like sync.Pool: a Get happens after the Put that supplied the item
+		if cap(b) > 0 {
+			simkit.RaceAcquire(unsafe.Pointer(&b[:1][0]))
+		}
 		return b
 	}
+	p.s.Unlock()
 	return newf()
 }
 
@@ -183,6 +189,9 @@ func (p *PoisonPool) Put(key any, x any) {
 	b, ok := x.([]byte)
 	if !ok {
 		return
+	}
+	if cap(b) > 0 {
+		simkit.RaceRelease(unsafe.Pointer(&b[:1][0]))
 	}
 	p.s.Lock()
 	defer p.s.Unlock()
